@@ -21,18 +21,18 @@ def fr(p):
     return float(Fraction(p[0], p[1]))
 
 
-def equilibrium(neg, A, B):
+def equilibrium(neg, A, B, off=0):
     import numpy as np
     from raysect.core import Point2D
     from cherab.tools.equilibrium import EFITEquilibrium
-    key = (neg, A, B)
+    key = (neg, A, B, off)
     if key not in _EQ:
         r = np.arange(1.0, 8.0)
         z = np.arange(-3.0, 4.0)
         sgn = -1.0 if neg else 1.0
         psi = sgn * (A * (r[:, None] - 4.0) ** 2 + B * z[None, :] ** 2)
         lcfs = np.array([[1.5, 6.5, 6.5, 1.5], [-2.5, -2.5, 2.5, 2.5]])
-        _EQ[key] = EFITEquilibrium(r, z, psi, 0.0, sgn * (A * 4 + B), Point2D(4.0, 0.0), [], [], np.array([[0.0, 1.0], [F0, F0]]),
+        _EQ[key] = EFITEquilibrium(r, z, psi, sgn * off / 2.0, sgn * (A * 4 + B), Point2D(4.0, 0.0), [], [], np.array([[0.0, 1.0], [F0, F0]]),
                                    np.array([[0.0, 1.0], [1.0, 2.0]]), BVAC_R, BVAC, lcfs, None, 0.0)
     return _EQ[key]
 
@@ -43,10 +43,10 @@ def lin(p, x):
 
 def replay(rec, ctx):
     from raysect.core import Vector3D
-    eq = equilibrium(rec["neg"], rec["A"], rec["B"])
+    eq = equilibrium(rec["neg"], rec["A"], rec["B"], rec.get("off", 0))
     r, z = float(rec["r"]), float(rec["z"])
     viol = []
-    tag = "psi-negative" if rec["neg"] else "psi-positive"
+    tag = ("psi-negative" if rec["neg"] else "psi-positive") + ("[axis-offset]" if rec.get("off") else "")
 
     def bad(what, detail):
         viol.append({"sig": f"{tag}:{what}", "detail": f"{detail} | A={rec['A']} B={rec['B']} node=({r},{z}) angle={rec['angle']}"})
@@ -57,6 +57,29 @@ def replay(rec, ctx):
     inside = bool(eq.inside_lcfs(r, z))
     if inside != rec["inside"]:
         bad("inside_lcfs-differs", f"{inside} vs {rec['inside']}")
+    # between the nodes: the normalised flux is never negative and the mapped profile is the profile at that flux
+    if r < 7 and z < 3 and rec["angle"] == [1, 0, 1]:
+        import numpy as _np
+        arrprof = eq.map2d(_np.array([[0.0, 0.5, 1.0, 40.0], [3.0, 4.0, 5.0, 83.0]]), value_outside_lcfs=-7.0)
+        for qa in (0.25, 0.5, 0.75):
+            for qb in (0.0, 0.25, 0.5, 0.75):
+                pr_, pz_ = r + qa, z + qb
+                pn = eq.psi_normalised(pr_, pz_)
+                if pn < 0:
+                    bad("psi_normalised-negative-between-nodes", f"psi_n({pr_}, {pz_}) = {pn!r}")
+                    break
+                try:
+                    got = arrprof(pr_, pz_)
+                except Exception as ex:          # noqa: BLE001
+                    bad(f"map2d[array]-raised-{type(ex).__name__}-between-nodes", f"at ({pr_}, {pz_}), psi_n = {pn!r}")
+                    break
+                want_ = (3.0 + 2.0 * pn) if eq.inside_lcfs(pr_, pz_) else -7.0
+                if not core.close(got, want_, rtol=1e-9, atol=1e-9):
+                    bad("map2d[array]-not-profile-of-psi_n-between-nodes", f"at ({pr_}, {pz_}): {got!r} vs {want_!r}")
+                    break
+            else:
+                continue
+            break
     prof = lambda x: 3.0 + 2.0 * x          # noqa: E731
     import numpy as np
     want = fr(rec["map2d"])
@@ -195,7 +218,7 @@ def run(v):
     cases = [r for r in res.records if "psin" in r]
     if len(cases) < 2000 or not any(r["inside"] for r in cases) or not any(not r["inside"] and r["psin"][0] <= r["psin"][1] for r in cases) or not any(r["degenerate"] for r in cases):
         raise core.MachineryError("vacuity: flux-map cases missing")
-    cases.sort(key=lambda r: (r["neg"], r["A"], r["B"]))
+    cases.sort(key=lambda r: (r["off"], r["neg"], r["A"], r["B"]))
     out = core.fan_out("mbt.c12", "replay", cases, None, chunk=147)
     for r, vs in zip(cases, out):
         for x in vs:
@@ -205,7 +228,7 @@ def run(v):
     for vs in out:
         for x in vs:
             v.violation(x["sig"], x["detail"], None)
-    v.add_cases(len(cases) + 2 * n, keys=[json.dumps([r["neg"], r["A"], r["B"], r["r"], r["z"], r["angle"]]) for r in cases])
+    v.add_cases(len(cases) + 2 * n, keys=[json.dumps([r["off"], r["neg"], r["A"], r["B"], r["r"], r["z"], r["angle"]]) for r in cases])
     v.sample(next(r for r in cases if r["inside"] and not r["degenerate"] and r["z"]))
     v.notes["random_points_per_bundled_equilibrium"] = n
     v.assumptions += ["synthetic quadratic psi on integer grids: cubic interpolation and second-order gradients are exact at the nodes where everything is compared",
